@@ -211,6 +211,23 @@ class PCSO(PUSO):
         """
         PCBO.update(self, *args, **kwargs)
 
+    def __imul__(self, other):
+        """__imul__.
+
+        Same as ``PUSO.__imul__``, but the constraints and the ancilla counter
+        are kept. See ``PCBO.__imul__``.
+
+        Parameters
+        ----------
+        other : numeric or dict object.
+
+        Return
+        ------
+        self : updated in place.
+
+        """
+        return PCBO.__imul__(self, other)
+
     @property
     def constraints(self):
         """constraints.
